@@ -162,14 +162,13 @@ impl<T, U> Framed<T, U> {
             self.io.is_shutdown() == old(self).io.is_shutdown(),
             self.read_buf == old(self).read_buf && self.flags == old(self).flags && self.codec == old(self).codec,
         decreases self.write_buf@.len(),
-//@insert before="(&mut self.write_buf).advance(n);"
+//@insert after="while !(&mut self.write_buf).is_empty() {"
+            let ghost b0 = self.write_buf@;
+//@insert arm_end="while !(&mut self.write_buf).is_empty()"
             proof {
-                let b = self.write_buf@;
-                assert(b.subrange(0, n as int) + b.subrange(n as int, b.len() as int) =~= b);
-                assert((self.io.written() + b.subrange(n as int, b.len() as int)) =~= (old(self).io.written() + old(self).write_buf@)) by {
-                    let w0 = old(self).io.written() + old(self).write_buf@;
-                    assert(self.io.written() + b.subrange(n as int, b.len() as int) =~= w0);
-                }
+                // what the transport accepted (a prefix of the buffer) is exactly what has been removed from the buffer
+                assert(b0.subrange(0, n as int) + b0.subrange(n as int, b0.len() as int) =~= b0);
+                assert(self.io.written() + self.write_buf@ =~= old(self).io.written() + old(self).write_buf@);
             }
 //@end
 
